@@ -521,7 +521,24 @@ func PlaySched(beh M) ([]M, error) {
 			partial[a] = true
 			x.Log.Append(mem.Ev{"k": "env", "act": "part", "a": a})
 			cmdBytes[a] = nextCmd(a)
-			conns[a].Send(cmdBytes[a][:3])
+			cut := 3
+			restLater := false
+			for _, sv := range L(beh, "steps")[si+1:] {
+				if st2 := AsM(sv); S(st2, "a") == a && S(st2, "act") == "DeliverRest" {
+					restLater = true
+				}
+			}
+			if !restLater && (I(beh, "_i")+len(a))%2 == 0 {
+				// a message over the size limit of which the header and some of the body have arrived, and no more
+				// will: the connection waits in the middle of a message like any other - nothing has been admitted
+				big := make([]byte, 9000)
+				for i := range big {
+					big[i] = 'x'
+				}
+				cmdBytes[a] = pgw.Typed('Q', big)
+				cut = 105
+			}
+			conns[a].Send(cmdBytes[a][:cut])
 			if _, err := conns[a].WaitQuiet(s.StepTimeout); err != nil {
 				res = "stuck"
 			}
